@@ -47,8 +47,9 @@ type S struct {
 	// Idle is called when no thread is enabled but some are unfinished; it
 	// may produce an environment event (return true) or report a deadlock.
 	Idle func() bool
-	// Trace receives one line per release.
 	Steps int
+	// Log records "<thread>:<kind>" per release.
+	Log []string
 }
 
 var active atomic.Pointer[S]
@@ -182,6 +183,7 @@ func (s *S) Run() bool {
 		if s.x.Tracing() {
 			s.x.Logf("run %s at %s", t.Name, t.pending.kind)
 		}
+		s.Log = append(s.Log, t.Name+":"+t.pending.kind)
 		t.pending = nil
 		s.last = t
 		s.Steps++
